@@ -62,6 +62,9 @@ CHECKS = {
     "C18": dict(engine="derive-check", design="§4 C18", technique="bounded-exhaustive enumeration of generated type definitions compiled against /repo/derive and executed with counting probes; compile probes for the Drop emission judged from rustc's JSON diagnostics",
                 text="Structs: unit, tuple and named with 0..8 fields x every ignore mask (quick: all masks up to 4 fields, selected masks beyond), generic structs and enums, ignored fields of non-Trace types; enums: every sequence of 1..2 (thorough: 1..4, 4680 enums) variants from a menu of 8 variant shapes, every variant instantiated. Each field's probe must be visited exactly once per trace invocation iff neither it nor its variant is ignored; derived Finalize must call nothing. 9 type kinds with a user Drop must each be rejected with E0119; with unsafe_no_drop they must compile and run their Drop.",
                 note="Enumeration of an input space (no state space); field types cycle through 5 container shapes."),
+    "C19": dict(engine="ccmc-interleave+teardown+parallel", design="§4 C19", technique="exhaustive enumeration of all API-call-granular interleavings of small per-thread programs on real OS threads under a baton scheduler, compared step by step with each program's solo run; exhaustive enumeration of a thread-teardown scenario matrix (one process each); parallel-vs-isolated differential of the state-space explorer",
+                text="(a) 10 per-thread programs hitting the buffer, the counters and the configuration: all 70 interleavings of every program pair (4+4 calls) and all interleavings of selected triples, each thread's canonical state key (every hidden collector word, counters, configuration, executions_count) after every step must equal its solo run; 4..16 threads on round-robin schedules and rotations. (b) 2 destruction orders x 10 object situations x {passive, collecting+allocating} user thread-local destructor x {spawned, main} thread, each in its own process: exit status 0, no double drop, no callback on freed memory. (c) 16 explorer workers run independent worlds concurrently: a violation of any oracle that an isolated replay does not reproduce is cross-thread interference.",
+                note="Preemption only between API calls (the crate has no synchronisation operation at which an outcome could differ); 4+ threads are listed schedules, not exhaustive; thread-local destructor order as implemented by this std on Linux."),
     "C20": dict(engine="ccmc-explorer+ccmc-mini+fwd", design="§4 C20", technique=MC + " for address stability/ptr_eq; layout grid through the mini explorer; exhaustive enumeration of ordered value pairs for the forwarding impls",
                 text="Every walk re-derives each reachable object's address through Deref, AsRef and Borrow and compares it with the address sealed at creation, the box range and the alignment; ptr_eq is compared with model identity for all handle pairs; the same on a grid of (size, align) payload types incl. zero-sized over-aligned ones; eq ne lt le gt ge partial_cmp cmp max min hash Debug Display Default on Cc<T> vs T for all ordered pairs of small complete value sets (f64 incl. NaN, +-0, +-inf), both for distinct allocations and for a pointer and its own clone.",
                 note="Layouts: a grid (13 alignments x up to 14 size points), not all combinations; value sets are small."),
@@ -104,6 +107,7 @@ def main():
             {"name": "ccmc-probes", "path": "harness/src/containers.rs", "serves_properties": ["C17"], "kind_free_text": "probe grid over the built-in Trace/Finalize impls"},
             {"name": "fwd", "path": "harness/src/fwd.rs", "serves_properties": ["C20"], "kind_free_text": "all ordered value pairs for the forwarding trait impls"},
             {"name": "derive-check", "path": "lib/gen_derive.py, derive_check/", "serves_properties": ["C18"], "kind_free_text": "generated type definitions compiled against /repo/derive"},
+            {"name": "ccmc-interleave+teardown+parallel", "path": "harness/src/threads.rs, lib/engines.py", "serves_properties": ["C19"], "kind_free_text": "all interleavings under a baton scheduler; teardown scenario matrix in subprocesses; parallel-vs-isolated differential"},
             {"name": "ccmc-policy", "path": "harness/src/policy.rs, harness/src/bfs.rs", "serves_properties": ["C15"], "kind_free_text": "explicit-state BFS over the real auto-collect policy with a reference policy oracle"},
             {"name": "ccmc-explorer", "path": "harness/src (explore.rs, world.rs, world_ops.rs, alloc.rs, lens.rs)", "serves_properties": sorted(k for k, v in CHECKS.items() if "ccmc-explorer" in v["engine"]), "kind_free_text": "explicit-state BFS over the real crate by history replay; fault forking; crash isolation"},
         ],
